@@ -61,6 +61,9 @@ def run_impl(line):
         if op == 'aes.enc': return hx(A.AES(unhx(a[0])).enc(unhx(a[1])))
         if op == 'aes.dec': return hx(A.AES(unhx(a[0])).dec(unhx(a[1])))
         if op == 'aes.gmul': return str(int(A.gmul(int(a[0]), int(a[1]))))
+        if op == 'aes.gmulc':
+            x, y = int(a[0]), int(a[1])
+            return guarded(lambda: str(int(A.gmul(x, y)))) + ';' + guarded(lambda: str(int(A.gmul(y, x))))
         if op == 'aes.keyschedule':
             w = A.AES(unhx(a[0])).keyschedule()
             return hx(b''.join(bytes(x.ival) for x in w))
